@@ -585,6 +585,30 @@ func (fr *Frame) analyseLoops() {
 		}
 		li.ordinal = best
 	}
+	// a loop whose own blocks carry no source positions (a range loop whose body is just a
+	// nested loop) lands on the statement of its child: move it to the enclosing loop statement
+	for changed := true; changed; {
+		changed = false
+		for _, li := range all {
+			p := li.parent
+			if p == nil || li.ordinal < 0 || p.ordinal != li.ordinal {
+				continue
+			}
+			child := stmts[li.ordinal]
+			best := -1
+			for k, st := range stmts {
+				if k != li.ordinal && st.Pos() <= child.Pos() && st.End() >= child.End() {
+					if best < 0 || (st.End()-st.Pos()) < (stmts[best].End()-stmts[best].Pos()) {
+						best = k
+					}
+				}
+			}
+			if best >= 0 {
+				p.ordinal = best
+				changed = true
+			}
+		}
+	}
 	// reordered loops: the contract records a hash of every loop statement in
 	// source order ("loopsigs ..."); when the same loops now appear in another
 	// order, each loop keeps the number it had when the contract was written
